@@ -65,13 +65,14 @@ func main() {
 			out.Write(b)
 			out.WriteByte('\n')
 		}
-		out.WriteString("\n{}\n")
-		out.Flush()
+		// the side log is written before the answer leaves: whoever has seen the answer finds the line
 		if p := os.Getenv("VERIF_CONV_LOG"); p != "" {
 			if f, err := os.OpenFile(p, os.O_APPEND|os.O_CREATE|os.O_WRONLY, 0o644); err == nil {
 				fmt.Fprintf(f, "%s %d %x\n", name, m.StreamID, h.Sum(nil))
 				f.Close()
 			}
 		}
+		out.WriteString("\n{}\n")
+		out.Flush()
 	}
 }
